@@ -11,7 +11,7 @@ Definition call := (str * bytes * str)%type.
 Definition opt_eqb {A} (f : A -> A -> bool) (a b : option A) : bool :=
   match a, b with Some x, Some y => f x y | None, None => true | _, _ => false end.
 
-Fixpoint list_eqb {A} (f : A -> A -> bool) (a b : list A) : bool :=
+Fixpoint list_eqb {A B} (f : A -> B -> bool) (a : list A) (b : list B) : bool :=
   match a, b with
   | [], [] => true
   | x :: a', y :: b' => f x y && list_eqb f a' b'
